@@ -86,8 +86,8 @@ func main() {
 	}
 	registryAndGolden()
 	allocPhase() // sequential, before anything concurrent starts
-	nVals := run.N(20000, 300000)
-	nBytes := run.N(100000, 3000000)
+	nVals := run.N(20000, 1200000)
+	nBytes := run.N(100000, 12000000)
 	const shard = 1000
 	run.Parallel((nVals+shard-1)/shard, 14, func(c *h.Case) { valueCases(c, shard) })
 	run.Parallel((nBytes+shard-1)/shard, 14, func(c *h.Case) {
@@ -714,7 +714,7 @@ func allocPhase() {
 			inputs = append(inputs, append(hdr, []byte(`{"version":"x"}`)...))
 		}
 	}
-	for i := 0; i < run.N(3000, 20000); i++ {
+	for i := 0; i < run.N(3000, 80000); i++ {
 		inputs = append(inputs, mutate(r))
 	}
 	// a maximal legal frame
